@@ -188,7 +188,7 @@ func c05Bin(name string) (string, error) {
 	if repo == "" {
 		repo = "/repo"
 	}
-	out := filepath.Join(root, "bin", "cmdv_"+name)
+	out := filepath.Join(binDir(), "cmdv_"+name)
 	tmpOut := fmt.Sprintf("%s.%d", out, os.Getpid())
 	cmd := exec.Command("go", "build", "-tags", "verif", "-o", tmpOut, "./cmd/obitools/"+name)
 	cmd.Dir = repo
